@@ -107,7 +107,7 @@ def twin_label(n0: str, n1: str, m0: str) -> bool:
 
 def xhair_item(item):
     out = dict(paths=1, obligations=2, discharged=0, violations=[], solver_queries=0, solver_s=0.0, nontrivial=True, item=item, section=0)
-    r = xhair.run(XH_SOURCE, per_condition_timeout=item["timeout"], extra_path=["/repo/src"])
+    r = xhair.run(XH_SOURCE, per_condition_timeout=item["timeout"], extra_path=[__import__("os").environ.get("VERIF_REPO_SRC", "/repo/src")])
     ce = r.get("check_label", {"verdict": "inconclusive", "detail": "no report: " + r.get("_raw", "")[-300:]})
     tw = r.get("twin_label", {"verdict": "inconclusive", "detail": "no report"})
     out["solver_s"] = r.get("_wall_s", 0.0)
